@@ -25,6 +25,7 @@
     persistent state, any allocator answers) + NewPeriodicSyncer. *)
 From BBS Require Import Common.Sx Persist.PBL Persist.PBLProofs Persist.Syncer Persist.SyncerProofs
   Persist.Shutdown Persist.ShutdownProofs Persist.ShutdownOrder Run.R03.
+From BBS Require Import Run.R03MonGhost Run.R03MonFields Run.R03MonReplay Run.R03Mon Run.R03MonAck Run.R03MonObs Run.R03MonEx.
 Local Open Scope nat_scope.
 
 (** The ghost never influences the run. *)
@@ -232,4 +233,90 @@ Proof. vm_compute. repeat split; reflexivity. Qed.
 Example layout_nonvacuous :
   ocn_new (cas_policy 2 3) 1 6 = mkLayout 1 0 5 0 /\ ocn_new (cas_policy 2 3) 1 7 = mkLayout 2 0 5 1 /\
   ocn_new (ac_policy 2) 1 4 = mkLayout 1 2 1 0.
+Proof. vm_compute. repeat split; reflexivity. Qed.
+
+(** ================= the monitor of Run/R03.v versus the model =================
+    Run/R03.v has no generative [run03 inp]: the model side of [judge03] is trace validation
+    ([replay03 inp obs = []]: the model ACCEPTS the observed call history; the nondeterminism —
+    interleaving, I/O outcomes, allocator answers — is resolved from the observation).  "The
+    monitor is silent on the model" is therefore stated over EVERY observation the model accepts,
+    i.e. for every resolution.  Proofs: Run/R03Mon*.v.
+
+    Full statement (NOT proved; clauses 1, 4, 5 need the store above the block list — key-location
+    map, old/current/new map, data device — which Persist/*.v does not model):
+      forall inp obs, is_marker obs = false -> replay03 inp obs = [] -> store_ok inp obs -> mon03 inp obs = [].
+
+    Proved: clauses 2, 3, 7, 8 never fire (the hypothesis [u_obs], a decidable check on the
+    observation, is the store-level link "the result of an upload op is the one the store derives
+    from the finalizer of the same op, and no final NotifySyncStarting / return of ProcessBlockPut
+    lies inside an upload op" — R03MonAck.v; it holds on all 1000 generated observations it was
+    evaluated on) ... *)
+Theorem mon03_silent_on_accepted_partial : forall inp obs,
+  is_marker obs = false -> replay03 inp obs = [] -> u_obs inp obs = true ->
+  forall z, In z (mon03 inp obs) -> z = 1%Z \/ z = 4%Z \/ z = 5%Z.
+Proof. exact R03MonObs.mon03_silent_on_accepted_partial. Qed.
+Print Assumptions mon03_silent_on_accepted_partial.
+
+(** ... and for clauses 1 and 4 the PREMISE is sound: incarnation by incarnation ([obl_sound],
+    Run/R03MonObs.v), on every accepted observation, with NO further hypothesis: the incarnation's
+    history is a run of the model from NewPersistentBlockList + NewPeriodicSyncer ([greachable]);
+    if the monitor has seen the final synchronisation begin the model's list is closed for writing;
+    if it has seen ProcessBlockPut return the model's put loop has exited; and whenever the monitor
+    carries its acknowledged copies as obligations into the next incarnation ([m_prev] of
+    [mon_exit] is 1 = graceful or 2 = crash after a commit that began after the last Put /
+    finalizer), the state the next incarnation is restored from ([x_state]) is the state of the
+    model's newest completed write, whose cohort is EVERY acknowledgement of the model and which
+    covers each of them (so by [record_resolves_after_restart] their index records resolve on the
+    restarted list unless rotation had evicted the block). *)
+Theorem mon03_obligations_sound : forall inp obs, replay03 inp obs = [] ->
+  let c := sx_nth inp 0 in
+  obl_sound c (sx_nth inp 1) c (mkConfig (sx_N (sx_nth c 9)) (sx_N (sx_nth c 10))) (sx_Z (sx_nth c 0))
+            (sx_list (sx_nth inp 2)) (sx_list obs) m_init init_pstate 0%N.
+Proof. exact R03MonObs.mon03_obligations_sound. Qed.
+Print Assumptions mon03_obligations_sound.
+
+(** one incarnation, spelled out *)
+Theorem mon03_incarnation_sound : forall c cfg bs st0 now e0 es x0 x1 cfgsx objs ops m0,
+  replay_restore c cfg bs st0 now e0 = Some x0 ->
+  replay_entries cfg bs 1 x0 es = (x1, []) ->
+  m_fresh m0 ->
+  let m1 := fold_left (mon_entry cfgsx objs ops) (e0 :: es) m0 in
+  exists alloc oldest init gx,
+    greachable cfg alloc oldest init now (x_sys x1) gx /\
+    x_state x1 = match gs_writes gx with w :: _ => gw_state w | [] => st0 end /\
+    (m_final m1 = true -> closedForWriting (s_pbl (x_sys x1)) = true) /\
+    (m_exited m1 = true -> s_p (x_sys x1) = PExit) /\
+    (m_prev (mon_exit m1) <> 0%Z ->
+       exists w rest, gs_writes gx = w :: rest /\ x_state x1 = gw_state w /\
+                      gw_cohort w = g_acks (gs_g gx) /\
+                      forall a, In a (g_acks (gs_g gx)) -> covers w a).
+Proof. exact R03Mon.mon03_incarnation_sound. Qed.
+Print Assumptions mon03_incarnation_sound.
+
+(** once the monitor's final flag is set, every finalizer entry the model accepts is a refusal
+    (class 1, errClosedForWriting) or the block's own error (class 3): the model never acknowledges *)
+Theorem mon03_no_ack_after_final : forall o cfg bs m x gx e x',
+  G o (x_sys x) gx -> J m (x_sys x) gx -> m_final m = true ->
+  tag e = 4%Z -> replay_entry cfg bs x e = Some x' ->
+  sx_Z (sx_nth e 2) = 1%Z \/ sx_Z (sx_nth e 2) = 3%Z.
+Proof. exact R03Mon.mon03_no_ack_after_final. Qed.
+Print Assumptions mon03_no_ack_after_final.
+
+(** non-vacuity: two observations of the REAL code (Run/R03MonEx.v) meet the hypotheses; in the
+    first the monitor carries one obligation out of a graceful shutdown that refused an upload, in the
+    second two obligations out of a crash after a commit *)
+Definition first_inc (inp obs : sx) : mst :=
+  mon_incs (sx_nth inp 0) (sx_nth inp 1) (firstn 1 (sx_list (sx_nth inp 2))) (firstn 1 (sx_list obs)) m_init.
+
+Example mon03_hyps_nonvacuous_graceful :
+  is_marker exg_obs = false /\ replay03 exg_inp exg_obs = [] /\ u_obs exg_inp exg_obs = true /\
+  mon03 exg_inp exg_obs = [] /\ length (sx_list exg_obs) = 2 /\
+  m_prev (first_inc exg_inp exg_obs) = 1%Z /\ length (m_copies (first_inc exg_inp exg_obs)) = 1 /\
+  existsb (fun e => Z.eqb (tag e) 4 && Z.eqb (sx_Z (sx_nth e 2)) 1) (sx_list (sx_nth exg_obs 0)) = true.
+Proof. vm_compute. repeat split; reflexivity. Qed.
+
+Example mon03_hyps_nonvacuous_crash :
+  is_marker exc_obs = false /\ replay03 exc_inp exc_obs = [] /\ u_obs exc_inp exc_obs = true /\
+  mon03 exc_inp exc_obs = [] /\ length (sx_list exc_obs) = 3 /\
+  m_prev (first_inc exc_inp exc_obs) = 2%Z /\ length (m_copies (first_inc exc_inp exc_obs)) = 2.
 Proof. vm_compute. repeat split; reflexivity. Qed.
